@@ -318,6 +318,40 @@ func runC06(c *core.Ctx) {
 		}
 	}
 
+	// (3c) the same at the very edge of the calendar in a layout with a time of day and a zone offset: the first
+	// and the last representable day lie, as instants, before year 1 / after year 9999 of UTC
+	{
+		r := c.Rng("edge", 0)
+		layout := "2006/01/02 15:04 -07:00"
+		heads := []string{"0001/01/01 00:00 +05:00", "0001/01/02 00:00 +05:00", "2021/01/05 12:00 +00:00", "9999/12/30 22:00 -05:00", "9999/12/31 22:00 -05:00"}
+		days := []gen.Date{{Y: 1, M: 1, D: 1}, {Y: 1, M: 1, D: 2}, {Y: 2021, M: 1, D: 5}, {Y: 9999, M: 12, D: 30}, {Y: 9999, M: 12, D: 31}}
+		var log gen.Log
+		for di, d := range days {
+			log = append(log, gen.Day{Date: d, Head: heads[di], Ents: []gen.Ent{{Name: "a/b", Val: gen.Half(2 + di)}, {Name: "zz", Val: gen.Half(1)}}})
+		}
+		for bi := -1; bi < len(days); bi++ {
+			for ei := -1; ei < len(days); ei++ {
+				if bi >= 0 && ei >= 0 && (bi+ei)%2 == 1 {
+					continue
+				}
+				it := item{log: log, layout: layout, today: gen.Date{Y: 2021, M: 2, D: 1}, cmd: c06Cmds[r.Intn(len(c06Cmds))], label: "edge of the calendar", zones: []string{c06Zones[(bi+2*ei+30)%4]}}
+				if bi >= 0 {
+					d, h := days[bi], heads[bi]
+					it.b, it.bs = &d, &h
+				}
+				if ei >= 0 {
+					d, h := days[ei], heads[ei]
+					it.e, it.es = &d, &h
+				}
+				if bi < 0 && ei < 0 {
+					// no period at all: every day is selected
+					it.label = "edge of the calendar, no period"
+				}
+				items = append(items, it)
+			}
+		}
+	}
+
 	// (4) random logs and periods
 	for i := 0; i < c.N(150, 3000); i++ {
 		r := c.Rng("random", i)
